@@ -205,7 +205,7 @@ Qed.
 (* the period: int(period_in_ms / 10) in [1, 254]  <->  10 ms <= period_in_ms < 2550 ms *)
 Lemma period_window ms : 1 <= c_period (new_cfg ms) <= 254 <-> 10 <= ms < 2550.
 Proof.
-  cbn [new_cfg c_period]. destruct (Z_lt_le_dec ms 0) as [Hn|Hp].
+  unfold new_cfg. cbn [new_cfg_p c_period]. destruct (Z_lt_le_dec ms 0) as [Hn|Hp].
   - rewrite <- (Z.opp_involutive ms), Z.quot_opp_l by lia. rewrite Z.quot_div_nonneg by lia. lia.
   - rewrite Z.quot_div_nonneg by lia. lia.
 Qed.
